@@ -348,6 +348,14 @@ TPB = st.one_of(st.sampled_from([1, 2, 24, 96, 480, 960, 32767]), st.integers(1,
 DELTA = st.one_of(st.sampled_from([0, 0, 1, 1, 2, 24, 96, 480, 481, 960]), st.integers(0, 3000), st.integers(0, 2 ** 24))
 
 
+OTHER_METAS = ([M.default_meta('time_signature', numerator=n, denominator=dn) for n, dn in
+                ((6, 8), (2, 2), (12, 8), (3, 4), (4, 4), (7, 16), (1, 1), (5, 2 ** 10))] +
+               [M.default_meta('key_signature', key='F#m'), M.default_meta('smpte_offset', frame_rate=25, hours=1),
+                M.default_meta('channel_prefix', channel=3), M.default_meta('midi_port', port=2),
+                M.default_meta('sequence_number', number=7),
+                {'type': 'unknown_meta', 'type_byte': 0x60, 'data': [1, 2], 'time': 0}])
+
+
 @st.composite
 def timing_files(draw, small=False):
     ftype = draw(st.sampled_from([0, 1, 1]))
@@ -359,7 +367,7 @@ def timing_files(draw, small=False):
     for _ in range(nt):
         tr = []
         for _ in range(draw(st.integers(0, 8 if not small else 6))):
-            kind = draw(st.sampled_from(['note', 'note', 'tempo', 'text', 'cc', 'eot']))
+            kind = draw(st.sampled_from(['note', 'note', 'tempo', 'text', 'cc', 'eot', 'other-meta']))
             tm = draw(dl)
             if kind == 'note':
                 tr.append({'type': 'note_on', 'channel': tag % 16, 'note': tag % 128, 'velocity': 1, 'time': tm})
@@ -370,6 +378,10 @@ def timing_files(draw, small=False):
                 tr.append({'type': 'set_tempo', 'tempo': tp, 'time': tm})
             elif kind == 'text':
                 tr.append({'type': 'marker', 'text': f't{tag}', 'time': tm})
+            elif kind == 'other-meta':
+                # meta events that describe notation or routing: none of them has any say in the timing
+                d = draw(st.sampled_from(OTHER_METAS))
+                tr.append({**d, 'time': tm})
             elif draw(st.integers(0, 2)) == 0:
                 tr.append({'type': 'end_of_track', 'time': tm})
             tag += 1
